@@ -6,12 +6,19 @@ import re
 import time
 
 import vlib
+import model_sweep
 from vlib import ToolError, log
+
+MODEL_PLAN = {
+    "C13": [("pair", 2, 840, 3000, 200, True, ["M_Subdivision", "M_StatusLineSorted", "M_NoPanic"])],
+    "C14": [("pairB", 2, 840, 3000, 200, True, ["M_Classification", "M_NoPanic"]), ("nest2", 2, 840, 12, 2, True, ["M_Classification"])],
+    "C15": [("quad", 2, 840, 200, 20, True, ["M_StatusLineSorted", "M_NoPanic"])],
+}
 
 PROPS = ["C13", "C14", "C15", "C16"]
 
-EXACT = "cx,rect,cxmix,cxshift"
-ROUND = "aff-cx,aff-cxmix,aff-cxshift"
+EXACT = "cx,rect,cxmix,cxshift,cxabut,cxsub,frames"
+ROUND = "aff-cx,aff-cxmix,aff-cxshift,lat"
 
 CLAUSES = {"C13": ["fq", "sub"], "C14": ["cls"], "C15": ["evo", "sego"]}
 INVS = {"fq": "C13_QueueFilling", "sub": "C13_PlanarSubdivision", "cls": "C14_Classification", "evo": "C15_EventOrder", "sego": "C15_SegmentOrder",
@@ -97,15 +104,24 @@ def run_stage_prop(prop, tier, seed, t0):
     for c, n in kcount.items():
         k = known[KNOWN_CLASS[c]]
         log("KNOWN-FINDING: property=%s %s (%d of %d runs in this batch)" % (prop, k["what"], n, len(runs)))
+    layer_m = []
+    for mi, (fam, n, l, sq, st, sc, invs) in enumerate(MODEL_PLAN.get(prop, [])):
+        stride = sq if tier == "quick" else st
+        r = model_sweep.model_and_replay(prop, os.path.join(vlib.OUT, prop, "model-%d-%s" % (mi, fam)), family=fam, n=n, l=l, stride=stride,
+                                         offset=(seed * 7 + mi) % stride, use_shortcuts=sc, invs=invs, timeout=10000)
+        r.update({"family": fam, "stride": stride, "invariants": invs})
+        layer_m.append({k: v for k, v in r.items() if k != "labels"})
+        res["distinct"] += r["states"]
+        res["generated"] += r["transitions"]
     nsub = sum(len([e for e in r["sub"]["ev"] if e[4] == 1]) for r in runs)
     nontriv = len({(json.dumps(r["A"]), json.dumps(r["B"]), r["op"], r["F"]) for r in runs if r["sub"]["popped"] > len(r["fq"]["ev"])})
     cov = {
         "states": res["distinct"], "transitions": res["generated"], "traces_validated_against_impl": len(runs) - len({r for (c, r) in fails if c not in KNOWN_CLASS}),
-        "samples": [{k: (v if k not in ("cmp0", "cmp1", "seg") else "...") for k, v in runs[0].items()}] if runs else [],
+        "samples": [{k: (v if k not in ("cmp0", "cmp1", "seg", "seg0") else "...") for k, v in runs[0].items()}] if runs else [],
         "evaluations": len(runs), "distinct_nontrivial": nontriv, "sub_segments_judged": nsub,
-        "order_pairs_judged": sum(len(r["cmp0"]["pairs"]) + len(r["cmp1"]["pairs"]) + len(r["seg"]) for r in runs) if prop == "C15" else 0,
+        "order_pairs_judged": sum(len(r["cmp0"]["pairs"]) + len(r["cmp1"]["pairs"]) + len(r["seg"]) + len(r["seg0"]) for r in runs) if prop == "C15" else 0,
         "rule": "one evaluation = one recorded run of fill_queue + subdivide (+ order matrices) on an operand pair and operation; non-trivial = subdivision processed more events than queue filling created (at least one division)",
-        "clauses": clauses, "known_finding_runs": kcount, "tlc_seconds": round(dt, 1),
+        "clauses": clauses, "known_finding_runs": kcount, "tlc_seconds": round(dt, 1), "layer_m": layer_m,
     }
     vlib.write_evidence(prop, tier, seed, "model_checking", cov, time.time() - t0, nviol, ASSUME)
     log("[%s] %s: %d stage runs (%d sub-segments) judged by TLC in %.0fs, %d violations, known-finding runs %s, %.0fs" % (prop, tier, len(runs), nsub, dt, nviol, kcount, time.time() - t0))
